@@ -67,12 +67,13 @@ Leaves == [i \in 1..(NSyms + 1 + Len(Consts)) |->
              ELSE IF i = NSyms + 1 THEN Sym("dt")
              ELSE Const(Consts[i - NSyms - 1])]
 
-UnaryOps == {"usat", "muldt", "neg", "pow2", "pow3", "sin", "cos", "exp", "tanh", "atan", "sqrt1", "log1", "tan", "asinb", "acosb"}
+UnaryOps == {"abs1", "usat", "muldt", "neg", "pow2", "pow3", "sin", "cos", "exp", "tanh", "atan", "sqrt1", "log1", "tan", "asinb", "acosb"}
 \* asin / acos are only applied to arguments that are bounded by construction (|sin|, |cos|, |tanh| <= 1)
 BoundedFn(e) == e.op = "fn" /\ e.f \in {"sin", "cos", "tanh"}
 MkNode(op, a, b) ==
   CASE op \in BinOps -> Bin(op, a, b)
     [] op = "neg"  -> Neg(a)
+    [] op = "abs1" -> Fn("sqrt", Pow(a, 2))           \* |a| written as sqrt(a^2): sign-sensitive under "simplification"
     [] op = "usat" -> Fn("sat", a)                  \* a USER function supplied through Config.python_modules (Python back-end only)
     [] op = "muldt" -> Bin("mul", a, Sym("dt"))      \* linear-in-dt models (x + v dt): the everyday case
     [] op = "pow2" -> Pow(a, 2)
